@@ -108,7 +108,8 @@ func c15Send(r *R) {
 				key := fmt.Sprintf("SendMessage/path#%d", n)
 				switch {
 				case pt.Has("-" + w + "==nil"):
-					r.c.Check(nW == 1 && nReset == 1 && nClose == 0 && pt.RetDesc(0) != "nil", "C15.2", key, r.p.Pos(fn.Pos()), "failed write: stream reset, error reported", "a failed write does not reset the stream and report an error: "+pt.Describe())
+					ret := pt.RetDesc(0)
+					r.c.Check(nW == 1 && nReset == 1 && nClose == 0 && ret != "nil" && !pt.Has("+"+ret+"==nil"), "C15.2", key, r.p.Pos(fn.Pos()), "failed write: stream reset, error reported", "a failed write does not reset the stream and report an error: "+pt.Describe())
 				case pt.Has("+" + w + "==nil"):
 					r.c.Check(nW == 1 && nReset == 0 && nClose == 1, "C15.2", key, r.p.Pos(fn.Pos()), "successful write: written once, stream closed", "a successful send does not write once and close the stream: "+pt.Describe())
 				default:
